@@ -51,3 +51,40 @@ func genC16(c *ctx) {
 	c.add(&h.Event{K: "quiesce"})
 	c.add(&h.Event{K: "check", Check: &h.Check{Key: c.key()}})
 }
+
+func init() {
+	generators["C11"] = genC11
+}
+
+func genC11(c *ctx) {
+	p := c.baseProfile()
+	p.Paths = 2 + c.n(3)
+	p.CrossPath = true
+	p.Terraformy = c.chance(0.8)
+	p.DepBodies, p.Ext = true, true
+	p.HalfTyped = 0
+	p.ExprDepth = 2 + c.n(3)
+	c.makeWorld(p)
+	max := 60
+	if c.thorough() {
+		max = 400
+	}
+	chk := func() *h.Check { return &h.Check{Key: c.key(), Max: max} }
+	c.add(&h.Event{K: "quiesce"})
+	c.add(&h.Event{K: "check", Check: chk()})
+	// stale sets: the relation quantifies over all collected sets
+	c.eachFile(func(pi, fi int) {
+		if c.chance(0.5) {
+			c.staleWindow(pi, fi)
+			c.add(&h.Event{K: "check", Check: chk()})
+			c.add(&h.Event{K: "edit", Path: pi, File: c.rend[pi][fi].Name, Op: "full"})
+		}
+	})
+	// reader faults on some paths, constant across each pair of lookups
+	c.add(&h.Event{K: "quiesce"})
+	np := len(c.sc.World.Paths)
+	c.add(&h.Event{K: "fault", Fault: "reader_error", Arg: int64(c.n(np)), On: true})
+	c.add(&h.Event{K: "check", Check: chk()})
+	c.add(&h.Event{K: "fault", Fault: "paths_order", Arg: int64(c.r.Uint32()), On: true})
+	c.add(&h.Event{K: "check", Check: chk()})
+}
